@@ -117,7 +117,7 @@ TraceCond ==
                         THEN {"C03.multidead"} ELSE {})
     /\ pc' = "conditioned"
     /\ ro' = IF pc = "strategies" /\ mode = "solve"
-             THEN RewardOracle(desc, orc, prob, rstrat, prune) ELSE [ok |-> FALSE]
+             THEN RewardOracle(desc, orc, prob, rstrat, prune) ELSE [ok |-> FALSE, stop |-> TRUE]
     /\ UNCHANGED <<desc, orc, prune, prob, rstrat, rew, fstrat, res, hist, mode, dcur, orcs, outs, reached, snaps>>
 
 \* outcome bookkeeping shared by Return / Raise / Timeout
@@ -189,7 +189,8 @@ TraceRaise ==
 TraceTimeout ==
     /\ IsEvent("Timeout")
     /\ LET o == [k |-> "Timeout", cls |-> "", rep |-> "Timeout"]
-           allowed == pc = "conditioned" /\ ~orc.stopping
+           \* Solver!Diverge: the conditioned game is not stopping on the claimed domain
+           allowed == pc = "conditioned" /\ mode = "solve" /\ ~ro.stop
        IN  /\ fails' = fails \cup (IF allowed THEN {} ELSE {"C06.Timeout pc=" \o pc})
            /\ notes' = notes \cup (IF allowed THEN {"C06.divergedOutsideDomain"} ELSE {})
            /\ Outcome(o)
